@@ -26,6 +26,7 @@ pub enum Case {
 }
 
 const ST_SWEEP: u32 = 100;
+const ST_WIDE: u32 = 102;
 const ST_SINGLE: u32 = 200;
 
 impl Property for C02 {
@@ -60,6 +61,8 @@ impl Property for C02 {
         };
         let mut v: Vec<(u32, u32)> = (0..6).map(|s| (s, per)).collect();
         v.push((ST_SWEEP, 1));
+        // more than 64 signers (multiscalar multiplications beyond one table block)
+        v.push((ST_WIDE, tier.pick(1, if suite.slow() { 2 } else { 6 })));
         v.push((ST_SINGLE, tier.pick(if suite.slow() { 40 } else { 200 }, if suite.slow() { 400 } else { 3000 })));
         v
     }
@@ -72,6 +75,12 @@ impl Property for C02 {
     fn strategy(&self, suite: SuiteId, tier: Tier, stratum: u32) -> BoxedStrategy<Case> {
         match stratum {
             ST_SWEEP => Just(Case::IdSweep).boxed(),
+            ST_WIDE => {
+                let sizes: Vec<u16> = if suite.slow() || tier == Tier::Quick { vec![65, 66] } else { vec![65, 70, 97, 130] };
+                (proptest::sample::select(sizes), 2u16..=4, idspec_strategy(None), msg_short_strategy(), any::<u64>())
+                    .prop_map(|(n, t, ids, msg, seed)| Case::Frost { shape: Shape { n, t }, ids, source: KeySource::Split, subset: SubsetSpec { class: SubsetClass::All, extra: 0, seed: 0 }, msg, seed })
+                    .boxed()
+            }
             ST_SINGLE => (msg_strategy(4096), any::<u64>()).prop_map(|(msg, seed)| Case::Single { msg, seed }).boxed(),
             s => {
                 let style = ID_STYLES[(s % 6) as usize];
@@ -98,6 +107,7 @@ impl Property for C02 {
             ("ids>65535".into(), m),
             ("nonces:preprocess-pair>0".into(), m),
             ("|S|>=4".into(), m),
+            ("|S|>64".into(), 1),
             ("tr:key-odd".into(), 3),
             ("tr:R-odd".into(), 3),
         ]
@@ -240,6 +250,9 @@ fn frost_run<C: Suite>(shape: Shape, ids: IdSpec, source: KeySource, subset: Sub
     }
     if signers.len() >= 4 {
         ctx.label("|S|>=4");
+    }
+    if signers.len() > 64 {
+        ctx.label("|S|>64");
     }
     ctx.label(&format!("id:{}", ids.style.name()));
     ctx.label(&format!("src:{}", source.name()));
